@@ -20,7 +20,7 @@ let okey (o, n) = (match o with OC -> "C." | OD -> "D." | OT -> "T.") ^ string_o
    on the state as a function; only shortens the chain of functional updates) *)
 let universe_s = (a_hist faithful).a_s
 let universe_p = List.map (fun n -> (OC, n)) cptrs @ List.map (fun n -> (OD, n)) dptrs
-                 @ [ (OD, cs_of_string "comp_info"); (OD, cs_of_string "marker_list"); (OD, cs_of_string "marker->dummy_methods"); (OD, cs_of_string "coef_bits"); (OD, cs_of_string "cquantize") ]
+                 @ [ (OD, cs_of_string "comp_info"); (OD, cs_of_string "marker_list"); (OD, cs_of_string "marker->dummy_methods"); (OD, cs_of_string "inputctl->dummy_start_input_pass"); (OD, cs_of_string "coef_bits"); (OD, cs_of_string "cquantize") ]
 let compact (s : state) : state =
   let ts = Hashtbl.create 512 and tp = Hashtbl.create 64 in
   List.iter (fun f -> Hashtbl.replace ts (okey f) (s.sc f)) universe_s;
@@ -75,7 +75,8 @@ let dump ic id (x : xstate) : Stdlib.String.t =
           else "d:-" in
   let m = Printf.sprintf "m:%d,%d,%d,%d" (geti s (fC "mem->image_space_small")) (geti s (fC "mem->image_space_large"))
             (geti s (fD "mem->image_space_small")) (geti s (fD "mem->image_space_large")) in
-  let k = Printf.sprintf "k:%d" (if s.pt (fD "marker->dummy_methods") <> None then 0 else 1) in
+  let k = Printf.sprintf "k:%d,%d" (if s.pt (fD "marker->dummy_methods") <> None then 0 else 1)
+            (if s.pt (fD "inputctl->dummy_start_input_pass") <> None then 0 else 1) in
   c ^ " " ^ d ^ " " ^ m ^ " " ^ k ^ " p:" ^ String.concat "," (List.map (fun f -> string_of_int (geti s f)) pfields)
 
 let okh_cache : (Stdlib.String.t, bool) Hashtbl.t = Hashtbl.create 64
